@@ -64,6 +64,7 @@ type Client struct {
 	gotCh   chan struct{} // signalled on every receive (for await)
 	waiting atomic.Int64  // await target (0 = not waiting)
 
+	ServeGoid    string // goroutine id of the session's ServeNostr call
 	ScriptDone   atomic.Bool
 	Returned     atomic.Bool // ServeNostr returned
 	ReturnStamp  int64
@@ -92,6 +93,7 @@ func (sim *Sim) NewClient(parent context.Context, name string, script []Op) *Cli
 func (c *Client) Serve(h mocrelay.Handler) {
 	sim := c.Sim
 	sim.Go(c.Name+".serve", func() {
+		c.ServeGoid = verifsim.GoroutineID()
 		err := h.ServeNostr(c.Ctx, c.Send, c.Recv)
 		c.ReturnErr = err
 		c.ReturnStamp = sim.Stamp()
